@@ -11,6 +11,7 @@ structure St where
   parse : ParseSt := {}
   load : LoadSt := {}
   norm : NormSt := {}
+  up : UpSt := {}
 
 /-- note-name engine (C11) -/
 def noteLine (toks : List String) : Option String :=
@@ -33,6 +34,9 @@ def St.line (s : St) (line : String) : St × Option String :=
   | t :: _ =>
     if t.startsWith "#" then (s, none)
     else if t = "s2n" ∨ t = "n2s" then (s, noteLine toks)
+    else if t.startsWith "tpl." ∨ t.startsWith "fs." ∨ t = "upkeep" ∨ t = "crashstates" then
+      let (p, o) := s.up.line toks
+      ({ s with up := p }, o)
     else if t = "h" ∨ t = "h.reset" ∨ t = "norm" then
       let (p, o) := s.norm.line toks
       ({ s with norm := p }, o)
